@@ -191,16 +191,27 @@ func HarnessC09Epoch(a []int) {
 	}()
 	conn.wait.Add(1)
 	go conn.serve()
+	// the application reads Inbound all the time; one telegram arrives in the first epoch, so the
+	// receive counter of that epoch stands at 1 when the connection is lost
+	delivered := 0
+	go func() {
+		verifDaemon()
+		for range conn.Inbound() {
+			delivered++
+		}
+	}()
+	sock.in <- &knxnet.TunnelReq{Channel: c0, SeqNumber: 0, Payload: c04Msgs[3]}
 	hb := int64(conn.config.HeartbeatInterval)
 	resend, timeout := int64(conn.config.ResendInterval), int64(conn.config.ResponseTimeout)
 	// let the first heartbeat and a possible reconnect play out
 	verifSleep(hb + 2*timeout + 3*resend)
 	verifQuiesce()
 	// first connection-state request: for the current channel, no later than one heartbeat interval
-	verifAssert("C09.epoch.heartbeat_sent", len(sock.log) > 0)
-	first, ok := sock.log[0].(*knxnet.ConnStateReq)
-	verifAssert("C09.epoch.first_is_heartbeat", ok && first.Channel == c0 && first.Control == conn.control)
-	verifAssert("C09.epoch.heartbeat_due", sock.stamps[0] <= hb)
+	verifAssert("C09.epoch.heartbeat_sent", len(sock.log) > 1 && delivered == 1)
+	_, isAck := sock.log[0].(*knxnet.TunnelRes)
+	first, ok := sock.log[1].(*knxnet.ConnStateReq)
+	verifAssert("C09.epoch.first_is_heartbeat", isAck && ok && first.Channel == c0 && first.Control == conn.control)
+	verifAssert("C09.epoch.heartbeat_due", sock.stamps[1] <= hb)
 	reconnects := 0
 	for i, f := range sock.log {
 		switch r := f.(type) {
@@ -247,17 +258,17 @@ func HarnessC09Epoch(a []int) {
 		verifAssert("C09.epoch.send_channel_and_counter", ok && req.Channel == wantCh && req.SeqNumber == wantSeq)
 		if failed {
 			// the receive direction restarts at 0 as well
-			got := make(chan cemi.Message, 1)
-			go func() { got <- <-conn.Inbound() }()
 			sock.in <- &knxnet.TunnelReq{Channel: newCh, SeqNumber: 0, Payload: c04Msgs[2]}
 			verifQuiesce()
-			verifAssert("C09.epoch.receive_counter_restarts", len(got) == 1)
+			verifAssert("C09.epoch.receive_counter_restarts", delivered == 2)
 		}
 	} else {
 		verifCover("C09.epoch.terminated")
 		verifAssert("C09.epoch.send_fails_after_termination", err != nil)
+		verifQuiesce()
 		_, open := <-conn.Inbound()
 		verifAssert("C09.epoch.inbound_closed", !open)
 	}
 	verifObserve("reconnects", reconnects)
 }
+var _ cemi.Message
